@@ -169,7 +169,7 @@ def firstFrameSubchunks (rangeStart rangeEnd : Nat) (chunks : Chunks) : M Chunks
     let chunks := chunks.orInsert cc (position + 8, position + 8 + size)
     let position := position + 8 + rounded
     if position + 8 > rangeEnd then .ok (chunks, r) else
-    match readChunkHeader r with
+    match readChunkHeader { r with pos := position } with
     | .error e => .error e
     | .ok ((cc, size, _), r) => .ok (chunks.orInsert cc (position + 8, position + 8 + size), r)
 
